@@ -64,18 +64,36 @@ func H_C08_readspec() {
 
 func H_C08_names() {
 	s := nondetString("s", vparam("N"))
-	_ = parser.IsQualifiedName(s)
-	_, _, _, _ = parser.ParseQualifiedName(s)
-	_, _, _ = parser.ParseDevice(s)
-	_, _ = parser.ParseQualifier(s)
-	_ = parser.ValidateVendorName(s)
-	_ = parser.ValidateClassName(s)
-	_ = parser.ValidateDeviceName(s)
-	_, _ = AnnotationValue([]string{s})
-	_, _ = AnnotationKey(s, "d")
-	_, _ = AnnotationKey("p", s)
-	_, _, _ = ParseAnnotations(map[string]string{"cdi.k8s.io/x": s})
-	_, _ = GenerateNameForSpec(&cdi.Spec{Kind: s})
-	_, _ = GenerateNameForTransientSpec(&cdi.Spec{Kind: "v/c"}, s)
+	// one entry point per case: the functions are pure, and separate cases keep the path conditions apart
+	switch nondetChoice("fn", 13) {
+	case 0:
+		_ = parser.IsQualifiedName(s)
+	case 1:
+		_, _, _, _ = parser.ParseQualifiedName(s)
+	case 2:
+		_, _, _ = parser.ParseDevice(s)
+	case 3:
+		_, _ = parser.ParseQualifier(s)
+	case 4:
+		_ = parser.ValidateVendorName(s)
+	case 5:
+		_ = parser.ValidateClassName(s)
+	case 6:
+		_ = parser.ValidateDeviceName(s)
+	case 7:
+		_, _ = AnnotationValue([]string{s})
+	case 8:
+		_, _ = AnnotationKey(s, "d")
+	case 9:
+		_, _ = AnnotationKey("p", s)
+	case 10:
+		if len(s) <= 6 { // splitting on commas multiplies paths; longer values are H_C15_parse's subject at its own bound
+			_, _, _ = ParseAnnotations(map[string]string{"cdi.k8s.io/x": s})
+		}
+	case 11:
+		_, _ = GenerateNameForSpec(&cdi.Spec{Kind: s})
+	case 12:
+		_, _ = GenerateNameForTransientSpec(&cdi.Spec{Kind: "v/c"}, s)
+	}
 	vreach("names-returned")
 }
